@@ -7,14 +7,21 @@ import sys
 import tempfile
 import xml.etree.ElementTree as ET
 
+tree = "/repo"
+if "--tree" in sys.argv:
+    i = sys.argv.index("--tree")
+    tree = sys.argv[i + 1]
+    del sys.argv[i:i + 2]
 base = json.load(open("/root/.vp/BASELINE.json"))
 want = set(base["stable_pass"])
 fd, path = tempfile.mkstemp(suffix=".xml")
 os.close(fd)
 env = {k: v for k, v in os.environ.items() if k != "WAVESPECTRA_VERIF"}
+if tree != "/repo":
+    env["PYTHONPATH"] = tree
 cmd = ["/venv/bin/python", "-m", "pytest", "-ra", "-q", "-p", "no:cacheprovider", "--timeout=900",
        "--continue-on-collection-errors", "--junitxml=" + path, "-n", "8"] + sys.argv[1:]
-p = subprocess.run(cmd, cwd="/repo", env=env, capture_output=True, text=True)
+p = subprocess.run(cmd, cwd=tree, env=env, capture_output=True, text=True)
 got = set()
 for tc in ET.parse(path).getroot().iter("testcase"):
     if not any(ch.tag in ("failure", "error", "skipped") for ch in tc):
